@@ -8,10 +8,13 @@ wit.native_witnesses = ["c20_wit_every_route_format_follows_the_edge_sequence"]
 rg = VerusUnit("c20_route_geom", "c20_route_geom", rlimit=30, paired_kani=(wit, []))
 uw = KaniUnit("c20_uuid_wit", APP, modules=[dict(file=APP + "/src/plugin/output/default/uuid/plugin.rs", src="c20_uuid_wit.rs")], harnesses=[])
 uw.native_witnesses = ["c20_wit_identifier_table_row_i_is_vertex_i"]
-UNITS = [rg, wit, uw]
-EXPLANATION = ("ONE kernel of C20 (its first mechanism: geometry lookup by edge id and concatenation in route order), NOT the agreement between the encoders. Decided (Verus, verbatim traversal_ops::create_route_linestring, "
+uu = VerusUnit("c20_uuid", "c20_uuid", rlimit=30, paired_kani=(uw, []))
+UNITS = [rg, uu, wit, uw]
+EXPLANATION = ("TWO mechanisms of C20 (geometry lookup by edge id and concatenation in route order; identifier lookup by matched vertex index), NOT the agreement between the encoders. Decided (Verus, verbatim UUIDOutputPlugin::process, any table and response): "
+               "the identifiers attached to a successful response are rows `origin id` and `destination id` of the identifier table -- the ones stored for the MATCHED vertices -- under the plugin's two keys, and no other field changes; a vertex beyond the end of "
+               "the table is an error, never a neighbour's identifier; a failed search is left untouched (a witness loads a table with blank rows through the real from_file: row i stays vertex i). Decided (Verus, verbatim traversal_ops::create_route_linestring, "
                "create_route_geojson, create_edge_geometry, create_branch_geometry, any route and geometry table): the route geometry is the concatenation of the STORED geometries of the route's edges IN ROUTE ORDER; a geometry missing from the "
                "table is an error, never a shortened or shifted geometry; the GeoJSON output has one feature per route edge IN ROUTE ORDER, each made of that edge's traversal record and ITS stored geometry; an edge's / branch's geometry is the table row of its edge id. A native witness runs every route output format of the real TraversalOutputFormat "
                "on one route (thorough): ids, per-edge records, GeoJSON features and the parsed-back WKT all follow the edge sequence")
-NOT_DECIDED = ("agreement between the WKT / WKB / GeoJSON / JSON encoders (third-party crates); concat_linestrings itself (geo's point iterators: assumed to concatenate); tree outputs (HashMap iteration); the uuid plugin (serde_json)")
+NOT_DECIDED = ("agreement between the WKT / WKB / GeoJSON / JSON encoders (third-party crates); concat_linestrings itself (geo's point iterators: assumed to concatenate); tree outputs (HashMap iteration); reading the matched vertex ids out of the response and the identifier file (serde_json / file I/O: a deterministic read, and the witness)")
 ASSUMPTIONS = ["geo_io_utils::concat_linestrings concatenates the points of its arguments in order (uninterpreted concatenation of a sequence)"]
